@@ -70,3 +70,18 @@ Qed.
 Lemma floor_guard_nondividing : exists a o s ks, py_range a o s = Some ks /\ ks <> [] /\
   ((o - a) mod s <> 0)%Z /\ floor_final_index a o s = last ks 0%Z.
 Proof. exists 0%Z, 1%Z, 2%Z, [0]%Z. split; [reflexivity|]. split; [discriminate|]. split; [vm_compute; discriminate|reflexivity]. Qed.
+
+(* the round-1 statements (total evaluation, no guards) are refuted by the witnesses above *)
+Lemma initial_statement_refuted :
+  ~ (forall p rho pcs c e x, denote p rho = Some pcs -> dget c (initial_expr p) = Some e -> p_at0 pcs c = Some x -> ev_eq rho e x).
+Proof.
+  intros H. destruct initial_refuted as (p & rho & pcs & c & e & x & v & _ & Hd & He & Hx & Hv & Hne & _).
+  destruct (H p rho pcs c e x Hd He Hx) as (v' & Ev' & Hv'). rewrite Hv in Ev'. inversion Ev'; subst v'. exact (Hne Hv').
+Qed.
+
+Lemma final_statement_refuted :
+  ~ (forall p rho pcs c e x, denote p rho = Some pcs -> dget c (final_expr p) = Some e -> p_end pcs c = Some x -> ev_eq rho e x).
+Proof.
+  intros H. destruct final_tail_refuted as (p & rho & pcs & c & e & x & v & _ & Hd & He & Hx & Hv & Hne & _).
+  destruct (H p rho pcs c e x Hd He Hx) as (v' & Ev' & Hv'). rewrite Hv in Ev'. inversion Ev'; subst v'. exact (Hne Hv').
+Qed.
